@@ -26,6 +26,15 @@ func main() {
 	buildCatalogue()
 	loadSites()
 	debug.SetPanicOnFault(true)
+	if len(os.Args) >= 2 && (os.Args[1] == "worker" || os.Args[1] == "refserver" || os.Args[1] == "eventlog") {
+		// The garbage collector is a seam the simulator owns: no automatic
+		// collections while a run is in progress (finalizers and pool clearing
+		// would otherwise happen at moments no seed decides); collections happen
+		// at seeded context switches (forced-gc) and between runs. The soft memory
+		// limit is a safety net only.
+		debug.SetGCPercent(-1)
+		debug.SetMemoryLimit(3 << 30)
+	}
 	if len(os.Args) >= 2 && (os.Args[1] == "worker" || os.Args[1] == "refserver") && !raceBuild {
 		// a runaway allocation must kill this worker, not the machine
 		lim := syscall.Rlimit{Cur: 6 << 30, Max: 6 << 30}
@@ -467,6 +476,7 @@ type taskLog struct {
 func (e *engine) Run(src *vs.Source, tier string, idx int64) (res *simkit.RunResult) {
 	res = &simkit.RunResult{Stats: map[string]int64{}, Max: map[string]int64{}}
 	var thePool *pool
+	defer runtime.GC() // between runs (automatic collection is off)
 	defer func() {
 		// The oracle reads operands and results through the library; if one
 		// of them has been corrupted those reads can panic. That is a
@@ -1001,6 +1011,7 @@ func refServer() {
 		}
 		var resp refResp
 		func() {
+			defer runtime.GC()
 			defer func() {
 				if r := recover(); r != nil {
 					resp.Err = fmt.Sprint(r)
